@@ -14,47 +14,7 @@
 #define MAXSCR	8
 #define MAXACT	24
 
-static int first_seg = 1;
-
-void vk_trace(const char *fmt, ...)
-{
-	va_list ap;
-	static int nseg;
-
-	if (++nseg > 6000) {
-		fputs(" | OVERFLOW", stdout);
-		fflush(stdout);
-		_exit(3);
-	}
-	if (!first_seg)
-		fputs(" | ", stdout);
-	first_seg = 0;
-	printf("%d:", mt_self());
-	va_start(ap, fmt);
-	vprintf(fmt, ap);
-	va_end(ap);
-	fflush(stdout);
-}
-
-void vk_end(const char *why)
-{
-	vk_trace("%s", why);
-	fflush(stdout);
-	_exit(0);
-}
-
-void vk_before_wait(int nwait)
-{
-	(void)nwait;
-}
-
-int vk_rotation(int nwait)
-{
-	(void)nwait;
-	return 0;
-}
-
-static char backend[8] = "et";
+extern char backend[8];
 
 struct script {
 	int	nlists;
